@@ -29,6 +29,7 @@ EXTENDS Integers, Sequences, SequencesExt, FiniteSets, TLC, Json, IOUtils
 CONSTANTS Cmds, Objs,        \* commands and object names of the simulate_plan domain
           HA, PA,            \* sub-domain A: <= HA handlers, plans of <= PA messages over Cmds x Objs
           HB, PB, BCmds, BObjs,   \* sub-domain B: <= HB handlers, plans of <= PB messages over BCmds x BObjs
+          HC, PC,            \* sub-domain C: <= HC handlers, plans of <= PC messages over Cmds x Objs
           LimPlan,           \* check_limits domain: plans of <= LimPlan messages
           LimR,              \* limits range over -LimR..LimR (lo <= hi)
           SetR               \* set values range over -SetR..SetR
@@ -88,8 +89,11 @@ APlans(n) == Seqs(AMsgs, n)
 BPlans(n) == Seqs(BMsgs, n)
 PlansA == UpTo(APlans, PA)
 PlansB == UpTo(BPlans, PB)
-Heads == UpTo(HS, IF HA > HB THEN HA ELSE HB)
+PlansC == UpTo(APlans, PC)
+MaxH == CHOOSE n \in {HA, HB, HC} : \A m \in {HA, HB, HC} : m <= n
+Heads == UpTo(HS, MaxH)
 SimPlansFor(h) == (IF Len(h) <= HA THEN PlansA ELSE {}) \cup (IF Len(h) <= HB THEN PlansB ELSE {})
+                      \cup (IF Len(h) <= HC THEN PlansC ELSE {})
 
 LimMsgs == {[cmd |-> "set", obj |-> d, val |-> v] : d \in {"m1", "m2", "n"}, v \in SetVals}
              \cup {[cmd |-> "read", obj |-> d, val |-> 0] : d \in {"m1", "m2", "n"}}
